@@ -1,5 +1,5 @@
 """C02 — the score: which strings are compared at which effective block size, on every entry point (not the score value)."""
-from ..rules import effbs, blocksize, convert, typestate, casts, vis, summary, features
+from ..rules import effbs, blocksize, convert, typestate, casts, vis, summary, features, beliefs
 
 EXPL = ("Decides (SA-EFFBS, dimension analysis over MIR): at every scorer call site whose operands are block hashes of hash objects "
         "(FuzzyHashCompareTarget::compare* relation-specific variants, FuzzyHashData::compare via compare_optimized_internal) the two "
@@ -39,6 +39,8 @@ def run(ctx):
         ctx.guard("C02", "distance-exits", lambda: effbs.distance_exits(ctx, prog))
         ctx.guard("C02", "summaries", lambda: summary.check(ctx, prog, 'internals::compare::|compare_easy::', floor=10))
         ctx.guard("C02", "path summaries", lambda: summary.check_paths(ctx, prog, 'internals::compare::|compare_easy::', floor=25))
+        if c in ("dbg", "unsafe_dbg", "strict_dbg"):
+            ctx.guard("C02", "beliefs", lambda: beliefs.census(ctx, prog, beliefs.SCOPES["C02"][0], floor=beliefs.SCOPES["C02"][1]))
         ctx.guard("C02", "traits", lambda: vis.trait_census(ctx, prog, scope='position_array::|FuzzyHashCompareTarget'))
         ctx.guard("C02", "casts", lambda: casts.census(ctx, prog, scope='internals::compare::', floor=3))
         if c not in ("nodef",):
